@@ -228,7 +228,9 @@ def meshgrid(rep, init):
             st = s
     tg = [unparse(e).replace("self.", "") for e in st.targets[0].elts] \
         if st is not None and isinstance(st.targets[0], ast.Tuple) else None
-    rep.check(names == ["r", "theta", "phi"] and tg == names and st is not None
+    # (which returned element is the radius / inclination / azimuth is decided by value in
+    #  spherical_formulas; here: three values, unpacked into the attributes in that order)
+    rep.check(len(names) == 3 and tg == ["r", "theta", "phi"] and st is not None
               and [unparse(a) for a in st.value.args] == ["self.x", "self.y", "self.z"],
               "spherical-order", f"{FD}::FiniteDifference.__init__::spherical",
               f"cartesian_to_spherical returns {names}; it is unpacked into {tg}", node=st
@@ -313,7 +315,11 @@ def trims(rep):
             if len(node.orelse) == 1 and isinstance(node.orelse[0], ast.If):
                 node = node.orelse[0]
             else:
-                rep.check(not node.orelse, "symmetric-trim", key + "::else",
+                tail = [x for x in node.orelse if not isinstance(x, ast.Pass)]
+                none_ret = len(tail) == 1 and isinstance(tail[0], ast.Return) and (
+                    tail[0].value is None or (isinstance(tail[0].value, ast.Constant)
+                                              and tail[0].value.value is None))
+                rep.check(not tail or none_ret, "symmetric-trim", key + "::else",
                           "unexpected fall-through branch", node=node)
                 break
         rep.check(ranks == [1, 2, 3], "symmetric-trim", key + "::ranks",
@@ -389,6 +395,12 @@ def spherical_formulas(rep):
             except AnalysisError:
                 if st.targets[0].id in ("r", "theta", "phi"):
                     raise
+    rets = [st for st in ast.walk(fn) if isinstance(st, ast.Return)]
+    if len(rets) != 1 or not isinstance(rets[0].value, ast.Tuple) \
+            or len(rets[0].value.elts) != 3:
+        raise AnalysisError("cartesian_to_spherical: a single `return r, theta, phi` expected")
+    for nm, e in zip(("r", "theta", "phi"), rets[0].value.elts):
+        env[nm] = ev(e)       # by position: the order of the returned values is the contract
     x, y, z = (P.atom(a.arg) for a in fn.args.args[1:])
     r2 = x * x + y * y + z * z
     rho2 = x * x + y * y
